@@ -586,6 +586,61 @@ fn run(ctx: &mut Ctx) {
         }
         ctx.fact("family_c_cases", nc);
     }
+    // family D: a golden path that cannot be written (its directory does not exist; its "directory" is a regular file).
+    // Whatever UPDATE_GOLDEN says, an `assert(got)` that RETURNS means the file now reads back as exactly `got`
+    // (in update mode because it was written, otherwise because it already held it): a swallowed write error would let
+    // a test pass with nothing recorded.
+    {
+        let mut nd = 0u64;
+        for kname in ["parent-directory-missing", "parent-is-a-regular-file"] {
+            for env in ENVS {
+                nd += 1;
+                let root = root.clone();
+                ctx.case(
+                    || format!("golden path that cannot be written ({}); UPDATE_GOLDEN {}; Golden::new, then assert(g) for every g in the content alphabet", kname, env.name()),
+                    move || {
+                        let w = World::new(&root, 0);
+                        let parent = w.dir.join("sub");
+                        if kname == "parent-is-a-regular-file" {
+                            std::fs::write(&parent, b"not a directory\n").expect("harness bug: write");
+                        }
+                        let path = parent.join("golden.txt");
+                        env.apply();
+                        let p = path.clone();
+                        let made = fw::guarded(move || Golden::new(p));
+                        let out = match made {
+                            Err(sig) => Outcome::violation(format!("unwritable-golden/new-panicked/{}", kname), sig),
+                            Ok(Err(_)) => Outcome::pass(format!("unwritable-golden/{}/env-{}/new-fails", kname, env.name())),
+                            Ok(Ok(g)) => {
+                                let mut verdict = None;
+                                let mut returned = 0;
+                                for got in CONTENTS {
+                                    let ok = fw::guarded(|| g.assert(got)).is_ok();
+                                    if ok {
+                                        returned += 1;
+                                        if env.mode() != Mode::Unknown && std::fs::read(&path).ok().as_deref() != Some(got.as_bytes()) {
+                                            verdict = Some(Outcome::violation(
+                                                format!("unwritable-golden/assert-returned-but-file-does-not-hold-got/{}/env-{}", kname, env.name()),
+                                                format!("assert({:?}) returned normally; reading {} afterwards gives {:?}", got, path.display(), std::fs::read(&path).map(|b| String::from_utf8_lossy(&b).to_string()).map_err(|e| e.to_string())),
+                                            ));
+                                            break;
+                                        }
+                                    }
+                                }
+                                verdict.unwrap_or_else(|| match env.mode() {
+                                    Mode::Unknown => Outcome::dont_care(format!("unwritable-golden/{}/env-non-utf8", kname)),
+                                    _ => Outcome::pass(format!("unwritable-golden/{}/env-{}/{}", kname, env.name(), if returned == 0 { "every-assert-panics" } else { "written" })),
+                                })
+                            }
+                        };
+                        std::env::remove_var(VAR);
+                        out
+                    },
+                );
+            }
+        }
+        ctx.fact("family_d_cases", nd);
+    }
     ctx.fact("family_a_cases", family_a_cases);
     ctx.fact("family_b_cases", serial - family_a_cases);
     ctx.fact("family_b_depth", depth_b as u64);
